@@ -92,6 +92,23 @@ Proof.
   eexists. split; [reflexivity|]. split; [|auto]. destruct (k =? 2)%Z; bp.
 Qed.
 
+(* every accepted spelling of the curve: a name / number, or the same inside a one-element list *)
+Lemma cutoff_c_scalar eps r level c : env_cutoff_c eps r level (CScalar c) = env_cutoff eps r level c.
+Proof.
+  unfold env_cutoff_c, env_cutoff, cutoff_shape. destruct (shape_number c) as [k|e]; [|reflexivity].
+  reflexivity.
+Qed.
+Lemma cutoff_c_bp eps r level c k : server_shape c = Some k ->
+  forall ca, ca = CScalar c \/ ca = CList [c] ->
+  exists e, env_cutoff_c eps r level ca = Ok e
+  /\ bp_eq (breakpoints e) [(0, toQ level); (toQ r, if (k =? 2)%Z then toQ eps else 0)]
+  /\ release e = Some 0%Z /\ loop e = None /\ curves e = [c].
+Proof.
+  intros Hk ca Hca. apply shape_numbers_all in Hk. unfold env_cutoff_c, cutoff_shape.
+  destruct Hca as [-> | ->]; rewrite Hk; cbn [bind]; (eexists; split; [reflexivity|]; split; [|auto]);
+    destruct (k =? 2)%Z; bp.
+Qed.
+
 (* ------------------------------------------------------------------ step *)
 Lemma wrap_extend_id {A} (l : list A) : l <> [] -> wrap_extend l (length l) = l.
 Proof.
